@@ -415,7 +415,12 @@ func init() {
 			{H: "H_C07_RestartOverlap", K: 40, U: 3, Prune: true, Preempt: 2, TimeoutSec: 1200},
 			{H: "H_C07_ResetDuringRetry", K: 48, U: 3, Prune: true, Preempt: 2, TimeoutSec: 1200},
 		},
-		Bounds:  "one key; (a) routine fails once, SetKey(k,false) (symbolic) lands while the retry timer is pending, then the backoff interval passes; (b) two RestartRoutine calls inside one exit latency, then ClearContext; schedules with at most 2 preemptions; K=40-48",
+		Thorough: []Job{
+			{H: "H_C07_RetrySurvivesSetKey", K: 52, U: 3, Prune: true, Preempt: 4, TimeoutSec: 6000, QueryMs: 3000000},
+			{H: "H_C07_RestartOverlap", K: 44, U: 3, Prune: true, Preempt: 3, TimeoutSec: 6000, QueryMs: 3000000},
+			{H: "H_C07_ResetDuringRetry", K: 52, U: 3, Prune: true, Preempt: 4, TimeoutSec: 6000, QueryMs: 3000000},
+		},
+		Bounds:  "(thorough: the same scenarios with 3-4 preemptions) one key; (a) routine fails once, SetKey(k,false) (symbolic) lands while the retry timer is pending, then the backoff interval passes; (b) two RestartRoutine calls inside one exit latency, then ClearContext; schedules with at most 2 preemptions; K=40-48",
 		Outside: "more than one key, more than 2 restarts",
 	}
 	plans["C08"] = Plan{
@@ -479,22 +484,29 @@ func init() {
 			{H: "H_C09_StopStart", K: 40, U: 3, Prune: true, Preempt: 2, TimeoutSec: 900},
 			{H: "H_C09_Delivered", K: 80, U: 3, Prune: true, Preempt: 2, Covers: 1, TimeoutSec: 900},
 		},
-		Bounds:  "one reference + two context replacements inside one resolver latency; AddRef(nil) concurrent with resolution; stop/start inside one resolver latency; delivery: result of the resolver in both target containers and told to an early and a late reference, released() -> resolved afresh (second call succeeds or fails, symbolic), last release empties the containers (K=80, at most 2 preemptions); K<=40 otherwise",
+		Thorough: []Job{
+			{H: "H_C09_Overlap", K: 34, U: 3, Prune: true, Preempt: 4, TimeoutSec: 6000, QueryMs: 3000000},
+			{H: "H_C09_StopStart", K: 44, U: 3, Prune: true, Preempt: 3, TimeoutSec: 6000, QueryMs: 3000000},
+			{H: "H_C09_Delivered", K: 84, U: 3, Prune: true, Preempt: 3, TimeoutSec: 6000, QueryMs: 3000000},
+		},
+		Bounds:  "one reference + two context replacements inside one resolver latency; AddRef(nil) concurrent with resolution; stop/start inside one resolver latency; delivery: result of the resolver in both target containers and told to an early and a late reference, released() -> resolved afresh (second call succeeds or fails, symbolic), last release empties the containers (K=80, at most 2 preemptions); K<=40 otherwise; thorough: the same scenarios with 3-4 preemptions",
 		Outside: "more than 3 resolver calls; more than 2 references",
 	}
 	plans["C10"] = Plan{
 		Quick: []Job{
 			{H: "H_C10_WaitWithReleased", K: 36, U: 3, Prune: true, TimeoutSec: 900},
-			{H: "H_C10_ResolveWithReleased", K: 66, U: 3, Prune: true, Preempt: 2, Covers: 1, TimeoutSec: 770, QueryMs: 400000},
-			{H: "H_C10_Resolve", K: 66, U: 3, Prune: true, Preempt: 2, Covers: 1, TimeoutSec: 770, QueryMs: 400000},
+			{H: "H_C10_ResolveWithReleased", K: 66, U: 3, Prune: true, Preempt: 1, Covers: 1, TimeoutSec: 770, QueryMs: 400000},
+			{H: "H_C10_Resolve", K: 66, U: 3, Prune: true, Preempt: 1, Covers: 1, TimeoutSec: 770, QueryMs: 400000},
 		},
 		Thorough: []Job{
+			{H: "H_C10_ResolveWithReleased", K: 66, U: 3, Prune: true, Preempt: 2, TimeoutSec: 3000, QueryMs: 2000000},
+			{H: "H_C10_Resolve", K: 66, U: 3, Prune: true, Preempt: 2, TimeoutSec: 3000, QueryMs: 2000000},
 			{H: "H_C10_ResolveWithReleased", K: 84, U: 3, Prune: true, Preempt: 3, TimeoutSec: 6000, QueryMs: 3000000},
 			{H: "H_C10_Resolve", K: 84, U: 3, Prune: true, Preempt: 3, TimeoutSec: 6000, QueryMs: 3000000},
 			{H: "H_C10_AccessInvalidate", K: 64, U: 3, Prune: true, Preempt: 1, TimeoutSec: 9000, QueryMs: 6000000, Weight: 2},
 			{H: "H_C10_AccessPrompt", K: 64, U: 3, Prune: true, Preempt: 1, TimeoutSec: 9000, QueryMs: 6000000, Weight: 2},
 		},
-		Bounds:  "value already resolved; WaitWithReleased concurrent with one invalidation (SetContext), K=36; a consumer obtaining the value through ResolveWithReleased / Resolve, holding it, optionally invalidated by the resolver's released() while holding (symbolic), then releasing: value not released while referenced unless invalidated, released callback exactly once after an invalidation and never otherwise, every value released exactly once (K=66, at most 2 preemptions; thorough K=84, 3 preemptions). Thorough: Access whose first callback invocation invalidates its own value and waits until the invalidation is delivered (must be re-invoked with the replacement; must not return the stale invocation's result; variant AccessPrompt: the replacement is not resolved until the first invocation has seen its context cancelled), schedules with at most 1 preemption, K=64 (encoding alone takes ~13 min)",
+		Bounds:  "value already resolved; WaitWithReleased concurrent with one invalidation (SetContext), K=36; a consumer obtaining the value through ResolveWithReleased / Resolve, holding it, optionally invalidated by the resolver's released() while holding (symbolic), then releasing: value not released while referenced unless invalidated, released callback exactly once after an invalidation and never otherwise, every value released exactly once (K=66, at most 1 preemption; thorough: 2 preemptions, and K=84 with 3). Thorough: Access whose first callback invocation invalidates its own value and waits until the invalidation is delivered (must be re-invoked with the replacement; must not return the stale invocation's result; variant AccessPrompt: the replacement is not resolved until the first invocation has seen its context cancelled), schedules with at most 1 preemption, K=64 (encoding alone takes ~13 min)",
 		Outside: "more than one invalidation; an independent invalidator thread racing Access (unrolling does not finish)",
 	}
 
